@@ -120,7 +120,13 @@ class Dims:
           return s
         if e.attr in base.getters:
           return self.returns(base.getters[e.attr], depth - 1)
-        return self.field(base, e.attr, depth - 1)
+        d_ = self.field(base, e.attr, depth - 1)
+        if d_ is None and base.attrs.get(e.attr) is not None:
+          # a class-level constant (never stored through self): the unit of its literal value
+          ok_, v_ = au.const(base.attrs[e.attr])
+          if ok_ and isinstance(v_, (int, float)) and not isinstance(v_, bool):
+            return POLY if (v_ == 0 or v_ != v_ or v_ in (float('inf'), float('-inf'))) else 0
+        return d_
       return None
     if isinstance(e, ast.Call):
       fn = e.func
